@@ -221,6 +221,25 @@ def _compare_runs(a, b, c, cal, d, n, tol, tags, viols, obs, what, times, base):
             viols.append(util.viol("scale_equivariance_scale", f"{what}: estimated scale does not divide by c={c:g} (rel {e:.3g})", tags=tags))
 
 
+def _compare_with_measured_conditioning(e1, e2, c, cal, d, n, tol, tags, viols, obs, what, times, base, rerun):
+    """Non-dyadic factors change every rounding. If the tight tolerance fails, the base run is repeated with the base
+    scale moved by one unit roundoff (``rerun(factor)``): the change between those two runs of the *same* model is the
+    rounding amplification of this solve, and the tolerance becomes tol + 20 x that change."""
+    tv, to = [], {}
+    _compare_runs(e1, e2, c, cal, d, n, tol, tags, tv, to, what, times, base)
+    if tv and tv[0]["suboracle"] in ("scale_equivariance_values", "scale_equivariance_scale"):
+        u = 1.0 + 2.0**-52
+        e3 = rerun(u)
+        if e3 is not None:
+            pv, po = [], {}
+            _compare_runs(e1, e3, u, cal, d, n, float("inf"), tags, pv, po, what, times, base)
+            sens = max([v for k, v in po.items() if k.startswith("max_equiv")] + [0.0])
+            obs["conditioning_measured"] = obs.get("conditioning_measured", 0) + 1
+            obs["max_measured_sensitivity"] = max(obs.get("max_measured_sensitivity", 0.0), sens)
+            tol = tol + 20.0 * sens
+    _compare_runs(e1, e2, c, cal, d, n, tol, tags, viols, obs, what, times, base)
+
+
 def _extract(sol, T):
     ms, Ps = [], []
     for i in range(T):
@@ -251,7 +270,12 @@ def _run_equiv(case):
         s2 = jax.jit(ivpsolve.solve_fixed_grid(solver=cfg2["solver"]))(cfg2["prior"], grid=jnp.asarray(grid))
         if float(np.nanmax(np.abs(np.nan_to_num(np.asarray(s1.u.mean_flat), nan=1e300)))) > 1e4:
             return {"violations": [], "obs": {"cases": 1, "exploded_or_short_skipped": 1}, "sigs": []}
-        _compare_runs(_extract(s1, len(grid)), _extract(s2, len(grid)), c, cal, d, n, tol, tags, viols, obs, "fixed_grid", grid, case["base"])
+        def rerun_fixed(factor):
+            cf = _cfg(case, case["base"] * factor)
+            return _extract(jax.jit(ivpsolve.solve_fixed_grid(solver=cf["solver"]))(cf["prior"], grid=jnp.asarray(grid)), len(grid))
+
+        cmp = _compare_runs if case["dyadic"] else (lambda *a: _compare_with_measured_conditioning(*a, rerun_fixed))
+        cmp(_extract(s1, len(grid)), _extract(s2, len(grid)), c, cal, d, n, tol, tags, viols, obs, "fixed_grid", grid, case["base"])
         obs["equivariance_pairs"] = 1
         sigs = ["|".join(str(case[k]) for k in ("kind", "fact", "cal", "ts", "strategy", "nu", "dyadic"))]
     else:
@@ -278,7 +302,17 @@ def _run_equiv(case):
         else:
             obs["trace_clause_skipped_borderline"] = 1
         if not viols:
-            _compare_runs(_extract(s1, len(pts)), _extract(s2, len(pts)), c, cal, d, n, tol if case["dyadic"] else 1e-7, tags, viols, obs, "adaptive", pts, case["base"])
+            def rerun_adaptive(factor):
+                try:
+                    s3, _st3, at3 = _record(_cfg(case, case["base"] * factor), pts, case)
+                except record.BudgetExceeded:
+                    return None
+                if len(at3) != len(at1):
+                    return None  # a different step sequence measures something else
+                return _extract(s3, len(pts))
+
+            cmp = _compare_runs if case["dyadic"] else (lambda *a: _compare_with_measured_conditioning(*a, rerun_adaptive))
+            cmp(_extract(s1, len(pts)), _extract(s2, len(pts)), c, cal, d, n, tol if case["dyadic"] else 1e-7, tags, viols, obs, "adaptive", pts, case["base"])
         obs["equivariance_pairs"] = 1
         obs["rejections_in_trace"] = sum(1 for _, _, ep in at1 if ep < 1.0)
         sigs = ["|".join(str(case[k]) for k in ("kind", "fact", "cal", "ts", "strategy", "nu", "dyadic"))] if obs["rejections_in_trace"] >= 1 else []
